@@ -106,6 +106,28 @@ CHECKS = {
    "DESIGN.md 4 C17"),
 }
 
+# what the seeding rounds added to the drivers (appended to the level text)
+ADDENDA = {
+ "C01": "verbose error responses with an Accept header no body format exists for; every combination of the fallback flag on one and two authenticators.",
+ "C02": "a clone of the tree disturbed after cloning; every rule-level configuration also reached through an update from a version with a changed first rule.",
+ "C03": "methods as a set (exclusions anywhere), host and path_params globs with the same text, dotted / slash-containing / percent-containing values, a combined conditions x routes product.",
+ "C04": "a slice of 3-chains in the quick tier; a well-formed HS256 token MAC'ed with the published key set.",
+ "C05": "hierarchic scope configurations and tokens; leeway-only rule-level override in the quick tier.",
+ "C06": "15+7 versions (method-restricted rule above a child owned by the other source, identical rule definition in both sources, wildcard renames, two routes on one expression); a change may only be rejected if the resulting sets do not load into an empty instance; panics of the repository are violations; BFS levels are expanded by a worker pool and merged in enumeration order.",
+ "C07": "every rule carries hosts and methods matchers, so state shared inside the rule factory between concurrently loading providers is in reach of the race pass; thorough: unbounded exploration with context switches at lock operations only.",
+ "C08": "designated octets always include the first and last octet of the path and of every segment (6 quick / 9 thorough); rules with different encoded-slash settings on one expression.",
+ "C09": "configurations are produced by the real loader from YAML files, five of them with different lists for the decision and the proxy service; single IPv6 entries with neighbouring peers; X-Forwarded-Uri in authority and absolute form.",
+ "C12": "the challenge the real www_authenticate handler records (prototype x rule-level realm x derivation/execution order of other family members).",
+ "C13": "bodies of unknown length (chunked transfer), repeated cookie names, ids with encoded percent signs, static segments with escapes.",
+ "C14": "a real-mechanism part: every ordered pair (thorough: triple) of 14 valid and malformed rules over real mechanisms and CEL conditions created by one production factory; each is accepted/rejected and behaves by its own definition whatever was loaded before.",
+ "C15": "typed bodies that do or do not decode x a pipeline step reading the body x known/unknown length; path segments with sub-delims, encoded percent signs and brackets; a pipeline header rendering empty.",
+ "C16": "families (catalogue finalizer and rule-level ttl/claims variants through one real cache: every ordered pair/triple) and rotations (every sequence of 2-3 of 8 key store versions behind one long-lived management handler); a reload that must be rejected as a whole.",
+ "C17": "unsorted multi-element lists in the catalogue, repeated expression texts with an absolute expectation for the denial message.",
+ "C18": "a poll whose connection dies inside the body; kubernetes status values cycling; cloud_blob diagnosis separating a removed blob not unloaded first from the known finding.",
+ "C19": "documents the repository alone rejects (followed by further changes), non-string keys, RSA-2560 bundles, rule-level assertions.scopes of wrong types.",
+ "C20": "assertion options on all metadata_endpoint variants.",
+}
+
 NOT_YET = {
 }
 
@@ -116,6 +138,8 @@ def main():
         pid = p['id']
         if pid in CHECKS:
             level, engine, technique, text, note, ref = CHECKS[pid]
+            if pid in ADDENDA:
+                text += " Added after the seeding rounds (DESIGN.md 6.4): " + ADDENDA[pid]
             checks.append({
                 "property_id": pid,
                 "quick_cmd": f"bin/vcheck {pid} --tier quick",
